@@ -1,7 +1,7 @@
 (* C02 -- Response parsing is independent of how the bytes are delivered. *)
 From Coq Require Import String.
 From Http Require Import Model.Bytes Model.Request Model.Chunked Model.Response Spec.Delivery
-     Proofs.FeedGeneric Proofs.RespResume Proofs.C02Response.
+     Proofs.FeedGeneric Proofs.RespResume Proofs.C02Response Proofs.TrailingData.
 
 (* For every stream and every way of cutting it into a non-empty list of deliveries: both
    accept, with the same status code, reason phrase, final header list and body and the same
@@ -23,6 +23,26 @@ Check (eq_refl : same_response =
   fun s1 t1 s2 t2 =>
     s_code s1 = s_code s2 /\ s_reason s1 = s_reason s2 /\ s_headers s1 = s_headers s2 /\
     s_body s1 = s_body s2 /\ t1 + length (s_trailer s2) = t2 + length (s_trailer s1)).
+
+(* the trailing data is exactly the delivered (consumed) bytes that follow the boundary,
+   verbatim and in order, whatever the delivery schedule *)
+Theorem C02_trailing_data_exact :
+  forall (ds : list bytes) (st : resp_state) (tot : nat) (rest : bytes),
+    feed _ resp_parse resp_init [] ds 0 = Done st tot rest ->
+    let boundary := tot - length (s_trailer st) in
+    length (s_trailer st) <= tot /\
+    s_trailer st = skipn boundary (firstn tot (concat ds)).
+Proof.
+  intros ds st tot rest H. cbv zeta.
+  destruct (feed_trailing_data ds resp_init [] 0 [] st tot rest rwf_init eq_refl eq_refl H)
+    as [k [used [_ [Hk [Hu [Hl Ht]]]]]].
+  cbn [app] in Hu. subst used.
+  assert (Hlen : length (s_trailer st) = tot - k) by (rewrite Ht, skipn_length, Hl; reflexivity).
+  split; [rewrite Hlen; apply Nat.le_sub_l|].
+  rewrite Hlen. replace (tot - (tot - k)) with k; [exact Ht|].
+  symmetry. apply Nat.add_sub_eq_l. apply Nat.sub_add. exact Hk.
+Qed.
+Print Assumptions C02_trailing_data_exact.
 
 (* the resumption law of one call, all phases including the chunk decoder's sub-states *)
 Theorem C02_one_call_resumable :
